@@ -333,7 +333,12 @@ def build(states, slots, cluster_bits=16, version=3, size=None, window_at=0, tot
         braw = backing_name.encode()
         boff = hl + len(exts)
         blen = len(braw)
-    hdr = header_bytes(version, cluster_bits, size, l1_size, l1_off, boff, blen, incompat, 0, 0, hl, len(snaps), snap_off)
+    # feature bits that say nothing about how to read: dirty (incompatible bit 0: refcounts may be stale), lazy refcounts
+    # (compatible bit 0), consistent bitmaps (autoclear bit 0) -- set on part of the images
+    if version >= 3 and cluster_bits % 2:
+        incompat |= 1
+    hdr = header_bytes(version, cluster_bits, size, l1_size, l1_off, boff, blen, incompat, 1 if total % 2 else 0,
+                       1 if cluster_bits % 3 == 0 else 0, hl, len(snaps), snap_off)
     first = hdr + exts + braw
     if version == 2 and backing_name is None:
         if v2_tail == "junk":
